@@ -386,7 +386,7 @@ theorem NInv_step (n n' : Net) (l : NLabel) (h : NInv n) (hs : step? n l = some 
   obtain ⟨f1, f2⟩ := flags
   cases l with
   | ask a b =>
-    simp only [step?] at hs
+    simp only [step?, stepWith] at hs
     split at hs
     · cases hs
     · rename_i hg
@@ -407,7 +407,7 @@ theorem NInv_step (n n' : Net) (l : NLabel) (h : NInv n) (hs : step? n l = some 
           cases hs
           exact NInv_ask n a b _ h hb hda (by simpa using hdb)
   | reply t =>
-    simp only [step?] at hs
+    simp only [step?, stepWith] at hs
     split at hs
     · rename_i hst
       cases hs
@@ -416,7 +416,7 @@ theorem NInv_step (n n' : Net) (l : NLabel) (h : NInv n) (hs : step? n l = some 
     · cases hs; exact NInv_ev h _
     · cases hs
   | resume t =>
-    simp only [step?] at hs
+    simp only [step?, stepWith] at hs
     split at hs
     · rename_i hst
       cases hs
@@ -428,7 +428,7 @@ theorem NInv_step (n n' : Net) (l : NLabel) (h : NInv n) (hs : step? n l = some 
       exact NInv_ev (NInv_release n t _ .done h rfl (by rw [hst]; rfl) rfl nofun).1 _
     · cases hs
   | giveUp t =>
-    simp only [step?] at hs
+    simp only [step?, stepWith] at hs
     split at hs
     · rename_i hst; cases hs; simp only [f2, if_true]
       exact NInv_ev (NInv_release n t _ .abandoned h rfl (by rw [hst]; rfl) rfl nofun).1 _
@@ -438,7 +438,7 @@ theorem NInv_step (n n' : Net) (l : NLabel) (h : NInv n) (hs : step? n l = some 
       exact NInv_ev (NInv_release n t _ .abandoned h rfl (by rw [hst]; rfl) rfl nofun).1 _
     · cases hs
   | die y =>
-    simp only [step?] at hs
+    simp only [step?, stepWith] at hs
     split at hs
     · cases hs
     · cases hs
